@@ -76,6 +76,8 @@ def build(tree: dict[str, Any], rng: random.Random) -> list[dict[str, Any]]:
             # now and then a raising merge is used on an ordinary type: the failing record must be dropped, nothing else
             merge = "raise" if rng.random() < 0.12 else MERGE_OF[t]
             step = {"op": "record", "type": t, "id": next(rid), "merge": merge}
+            if merge != "default" and rng.random() < 0.35:
+                step["merge_form"] = rng.choice(["falsy-object", "falsy-object", "partial"])
             earlier = [o for o in made if o[0] == t]
             if earlier and rng.random() < 0.25:
                 step["obj"] = rng.choice(earlier)[1]  # the very same instance is recorded again (a shared constant metric)
@@ -116,7 +118,7 @@ def run_once(prog: list[dict[str, Any]], chooser: Chooser) -> dict[str, Any]:
             try:
                 for t, T in metricsfam.TYPES.items():
                     snap["read"][t] = metricsfam.plain(metrics.read(T))
-                snap["view"] = sorted(metricsfam.plain(m) for m in metrics.metrics(merge=metricsfam.view_merge) if not isinstance(m, metricsfam.Mf))
+                snap["view"] = sorted(metricsfam.plain(m) for m in metrics.metrics(merge=metricsfam.view_merge_for(name)) if not isinstance(m, metricsfam.Mf))
                 snap["own"] = sorted(metricsfam.plain(m) for m in metrics.metrics() if not isinstance(m, metricsfam.Mf))
                 snap["read_default"] = metricsfam.plain(metrics.read(metricsfam.Mr, default=metricsfam.Mr(v=-1)))
             except BaseException as exc:  # noqa: BLE001
